@@ -241,8 +241,8 @@ PROPS = {
 # Quick-tier volume.  The workloads are cheap, so the quick tier runs a multiple of
 # the base case counts (still well under a minute per check); the floors of the
 # scaled counters are raised by half that factor.
-QUICK_SCALE = {"C01": 4, "C02": 8, "C03": 10, "C04": 8, "C05": 5, "C06": 5, "C07": 5, "C08": 10, "C09": 10, "C10": 5,
-               "C11": 5, "C12": 10, "C13": 1, "C14": 5, "C15": 5, "C16": 5, "C17": 5, "C18": 8}
+QUICK_SCALE = {"C01": 8, "C02": 24, "C03": 30, "C04": 24, "C05": 15, "C06": 10, "C07": 15, "C08": 30, "C09": 30, "C10": 10,
+               "C11": 10, "C12": 30, "C13": 1, "C14": 15, "C15": 15, "C16": 10, "C17": 15, "C18": 24}
 # thorough tier: sized so that each property takes roughly 1-5 minutes on 16 cores
 THOROUGH_SCALE = {"C01": 80, "C02": 64, "C03": 800, "C04": 200, "C05": 150, "C06": 100, "C07": 80, "C08": 300, "C09": 120,
                   "C10": 40, "C11": 120, "C12": 800, "C13": 300, "C14": 150, "C15": 80, "C16": 60, "C17": 300, "C18": 64}
